@@ -65,6 +65,12 @@ CHECKS.update({
             "Exit roots never return to an earlier value (domain); in Level A no zero exit root after a non-zero one for the same rollup; the rollup manager stand-in's getRollupExitRoot is a verbatim copy of the real one.", "DESIGN.md §4 C11"),
 })
 
+CHECKS.update({
+    "C12": ("exploration", "runtime monitor: real BridgeService handlers (gin test context) over the four real stores; reference proof verifier and covering-index oracle from a joint L1/L2 reference history",
+            "Joint L1/L2 histories are loaded into the real L1/L2 bridge stores, L1 info store and injected-GER store; for every recorded bridge and every L1 info index whose exit roots cover it, /claim-proof must return proofs that hash the bridge leaf to the mainnet exit root (or to the local exit root and that to the rollup exit root) of that leaf; /l1-info-tree-index must never return a non-covering index (any refusal is accepted and counted); /injected-l1-info-leaf must return an injected leaf with index >= the one asked.",
+            "The stores are filled at processor level (C05/C11 cover the download path); proofs are verified by the reference verifier that C08 cross-checks against the contract's verifyMerkleProof.", "DESIGN.md §4 C12"),
+})
+
 # properties not (yet) claimed: reason
 NOT_APPLICABLE = {
 }
